@@ -139,9 +139,12 @@ impl FileImportResolver {
 	pub fn new(library_paths: Vec<PathBuf>) -> Self {
 		Self { library_paths }
 	}
-	/// Dynamically add new jpath, used by bindings
+	/// Dynamically add new jpath, used by bindings.
+	///
+	/// As `jsonnet_jpath_add` documents, the search order is last to first: more recently
+	/// added paths take precedence.
 	pub fn add_jpath(&mut self, path: PathBuf) {
-		self.library_paths.push(path);
+		self.library_paths.insert(0, path);
 	}
 }
 
